@@ -274,4 +274,46 @@ theorem posOk_sound {D : Nat} {r : Row} (h : r.posOk D = true) {env : Env} (hD :
 
 theorem defaultsHold_env0 (D : Nat) : defaultsHold D env0 := fun _ _ => rfl
 
+/-! ### value selection -/
+namespace Select
+
+theorem gateVal_mono {o o' : Opts} (h : o ≤ o') (v : Val) : gateVal o v = true → gateVal o' v = true := by
+  simp only [gateVal, Bool.and_eq_true, Bool.or_eq_true, Bool.not_eq_true']
+  intro hh
+  refine ⟨?_, ?_⟩
+  · cases hh.1 with
+    | inl h1 => exact Or.inl h1
+    | inr h1 => exact Or.inr (h.2 h1)
+  · cases hh.2 with
+    | inl h1 => exact Or.inl h1
+    | inr h1 => exact Or.inr (h.1 _ h1)
+
+/-- ANY selector that does not look at the options, followed by the gate, is monotone: the value reported under the smaller
+option set is reported, unchanged, under the larger one -/
+theorem select_then_gate_monotone (sel : List Val → Option Val) {o o' : Opts} (h : o ≤ o') (vs : List Val) (v : Val)
+    (hv : (sel vs).filter (gateVal o) = some v) : (sel vs).filter (gateVal o') = some v := by
+  cases hs : sel vs with
+  | none => rw [hs] at hv; cases hv
+  | some w =>
+    rw [hs] at hv
+    simp only [Option.filter] at hv ⊢
+    by_cases hg : gateVal o w = true
+    · simp only [hg, if_true] at hv
+      simp only [gateVal_mono h w hg, if_true]
+      exact hv
+    · simp only [hg] at hv
+      cases hv
+
+theorem filter_gated {o : Opts} {x : Option Val} {v : Val} (h : x.filter (gateVal o) = some v) : gateVal o v = true := by
+  cases x with
+  | none => cases h
+  | some w =>
+    simp only [Option.filter] at h
+    by_cases hg : gateVal o w = true
+    · simp only [hg, if_true] at h
+      cases h; exact hg
+    · simp only [hg] at h; cases h
+
+end Select
+
 end Cppcheck.SevGate
